@@ -1138,6 +1138,11 @@ def replay_model_cases(ctx, cases, plan, label):
                 ctx.drift("real code differs from the I-layer prediction but satisfies P (%s, level %s): %s" %
                           (label, stims[j]["level"], json.dumps({k: stims[j][k] for k in ("heap", "docs", "ops")})[:700]))
     ctx.validated(len(stims) - len(pick))   # matched the P state computed by TLC after every step
+    mid = len(stims) // 2
+    ctx.sample({"direction": "spec->code (%s)" % label, "stimulus": {k: stims[mid][k] for k in ("level", "heap", "docs", "ops")},
+                "model_expected_state_after_last_op": cases[meta[mid]]["ops"][-1]["exp"],
+                "observed_after_last_op": {str(b): v for b, v in results[mid]["obs"][-1]["cfg"].items()} if results[mid]["obs"] else None},
+               limit=2 if label == "fold" else 3)
     return stims, results, suspects
 
 
@@ -1199,9 +1204,6 @@ def run(ctx):
             ("lb", "api", "c", "top", ctx.pick(97, 23), 0), ("lb", "file", "c", "top", ctx.pick(97, 23), 5),
             ("lb", "api", "c", "opt", ctx.pick(197, 41), 7), ("lb", "api", "cpp", "opt", ctx.pick(397, 83), 11)]
     stims, results, suspects = replay_model_cases(ctx, cases, plan, "fold")
-    mid = len(stims) // 2
-    ctx.sample({"direction": "spec->code", "stimulus": {k: stims[mid][k] for k in ("level", "heap", "docs", "ops")},
-                "model_expected_after_each_op": cases[len(cases) // 2]["ops"][-1]["exp"]})
     # simulated long histories of the hist model (3 builders)
     _, hcases = sliced(ctx, "ConfigMerge_sim", 1, "ConfigMerge histories (simulation, recorded)",
                        "CopyMode=rebuild Mode=hist NB=3 MaxOps=9 UHist, -simulate", emit=True,
